@@ -159,12 +159,16 @@ def root_span(span):
     return s
 
 
-def run_cargo(ws, out, target, extra_env=None, wrapper=True, label="main"):
+def run_cargo(ws, out, target, extra_env=None, wrapper=True, label="main", sub="check"):
     env = base_env()
     env["LD_LIBRARY_PATH"] = os.path.join(sysroot(), "lib") + ":" + env.get("LD_LIBRARY_PATH", "")
-    env["RUSTFLAGS"] = "-Zmir-opt-level=0 -Zalways-encode-mir -Awarnings"
+    env.pop("RUSTC_WORKSPACE_WRAPPER", None)
     if wrapper:
+        env["RUSTFLAGS"] = "-Zmir-opt-level=0 -Zalways-encode-mir -Awarnings"
         env["RUSTC_WORKSPACE_WRAPPER"] = DRV_BIN
+    else:
+        # must-fail programs are compiled the way a user would: plain `cargo build`, no extra flags
+        env["RUSTFLAGS"] = ""
     env["BBDRV_OUT"] = os.path.join(out, "facts")
     env["BBDRV_HINTS"] = os.path.join(out, "hints")
     env["BBDRV_CRATES"] = "pos_"
@@ -174,7 +178,7 @@ def run_cargo(ws, out, target, extra_env=None, wrapper=True, label="main"):
     os.makedirs(os.path.join(out, "facts"), exist_ok=True)
     t0 = time.time()
     p = subprocess.run(
-        ["cargo", "+nightly", "check", "--offline", "--workspace", "--keep-going", "--message-format=json", "-j", str(os.cpu_count() or 8)],
+        ["cargo", "+nightly", sub, "--offline", "--workspace", "--keep-going", "--message-format=json", "-j", str(os.cpu_count() or 8)],
         cwd=ws, env=env, stdout=subprocess.PIPE, stderr=subprocess.PIPE, text=True)
     diags = {}
     built = set()
@@ -232,22 +236,36 @@ def build(tier, seed, verbose=True):
     crates = corpus.build_positive(tier, seed, harvested)
     crates += negcorpus.build_negative(tier, seed)
     ws = os.path.join(out, "ws")
-    model = write_workspace(ws, crates)
+    pos = [c for c in crates if c.kind == "pos"]
+    negs = [c for c in crates if c.kind != "pos"]
+    model = write_workspace(ws, pos)
+    neg_ws = os.path.join(out, "ws_neg")
+    model.update(write_workspace(neg_ws, negs))
     write_hints(os.path.join(out, "hints"), model)
     target = os.path.join(out, "target")
-    runs = [run_cargo(ws, out, target)]
+    target_neg = os.path.join(out, "target_neg")
+    import threading
+    results = {}
+
+    def job(label, *a, **kw):
+        results[label] = run_cargo(*a, label=label, **kw)
+
+    threads = [threading.Thread(target=job, args=("main", ws, out, target)),
+               threading.Thread(target=job, args=("neg", neg_ws, os.path.join(out, "negout"), target_neg), kwargs={"wrapper": False, "sub": "build"})]
     if tier == "thorough":
         # the --release configuration of the proc macro: no overflow checks inside the macro
         target2 = os.path.join(out, "target_rel")
-        neg_only_ws = os.path.join(out, "ws_rel")
-        negs = [c for c in crates if c.kind != "pos"]
-        write_workspace(neg_only_ws, negs)
-        runs.append(run_cargo(neg_only_ws, os.path.join(out, "rel"), target2,
-                              extra_env={"CARGO_PROFILE_DEV_BUILD_OVERRIDE_OVERFLOW_CHECKS": "false",
-                                         "CARGO_PROFILE_DEV_BUILD_OVERRIDE_DEBUG_ASSERTIONS": "false"},
-                              wrapper=False, label="macro_release"))
-        shutil.rmtree(target2, ignore_errors=True)
-    shutil.rmtree(target, ignore_errors=True)
+        threads.append(threading.Thread(target=job, args=("neg_macro_release", neg_ws, os.path.join(out, "rel"), target2),
+                                        kwargs={"wrapper": False, "sub": "build",
+                                                "extra_env": {"CARGO_PROFILE_DEV_BUILD_OVERRIDE_OVERFLOW_CHECKS": "false",
+                                                              "CARGO_PROFILE_DEV_BUILD_OVERRIDE_DEBUG_ASSERTIONS": "false"}}))
+    for t in threads:
+        t.start()
+    for t in threads:
+        t.join()
+    runs = [results[k] for k in sorted(results)]
+    for d in (target, target_neg, os.path.join(out, "target_rel")):
+        shutil.rmtree(d, ignore_errors=True)
     with open(os.path.join(out, "model.json"), "w") as f:
         json.dump(model, f)
     with open(os.path.join(out, "runs.json"), "w") as f:
